@@ -10,12 +10,13 @@ import (
 	"time"
 
 	"github.com/Comcast/rulio/core"
+	"github.com/Comcast/rulio/cron"
 )
 
 // Domain "loc": histories of Location operations over several locations
 // (indexed and linear state, MemStorage, SimpleLocationProvider).
 
-var locProfiles = []string{"search", "dispatch", "lifecycle", "cascade", "acl", "capacity", "forest", "expiry", "query", "events", "durable"}
+var locProfiles = []string{"search", "dispatch", "lifecycle", "cascade", "acl", "capacity", "forest", "expiry", "query", "events", "durable", "cronhooks"}
 
 func init() {
 	register("loc", &Domain{Gen: genLoc, Exec: execLoc})
@@ -44,6 +45,10 @@ type locGen struct {
 	keyed    bool
 	timeUnit int64
 	sem      map[string]interface{} // script table shared by the rules of a case
+}
+
+func init() {
+	_ = cron.AddHooks
 }
 
 func rulePat(p interface{}) map[string]interface{} {
@@ -102,6 +107,7 @@ func (lg *locGen) op() map[string]interface{} {
 		"expiry":    {25, 12, 3, 2, 14, 2, 14, 12, 2, 0, 0, 0, 2, 8, 0, 0, 0},
 		"query":     {34, 2, 6, 0, 2, 0, 6, 0, 0, 1, 0, 0, 0, 3, 1, 40, 0},
 		//            (addrule weight is used for rules with conditions/actions; last column: process)
+		"cronhooks": {14, 34, 8, 14, 2, 2, 2, 3, 3, 3, 0, 0, 1, 8, 0, 0, 6},
 		"durable":   {30, 12, 10, 5, 6, 2, 10, 5, 4, 1, 2, 1, 2, 9, 0, 0, 0},
 		"events":    {22, 26, 4, 4, 1, 1, 2, 2, 5, 1, 0, 0, 0, 3, 0, 0, 40},
 	}[lg.profile]
@@ -145,7 +151,7 @@ func (lg *locGen) op() map[string]interface{} {
 		if lg.profile == "expiry" {
 			lg.expiry(f)
 		}
-		if r.Intn(40) == 0 {
+		if r.Intn(40) == 0 && lg.profile != "cronhooks" {
 			f["rule"] = pick(r, 5.0, "x", map[string]interface{}{"when": 5.0}, map[string]interface{}{"schedule": 5.0}).(interface{})
 		}
 		o["fact"] = f
@@ -178,6 +184,14 @@ func (lg *locGen) op() map[string]interface{} {
 		}
 		if lg.profile == "expiry" && r.Intn(2) == 0 {
 			lg.expiry(rule)
+		}
+		if lg.profile == "cronhooks" {
+			if r.Intn(3) != 0 {
+				rule = lg.scheduledRule()
+			}
+			if r.Intn(3) == 0 {
+				rule["deleteWith"] = []interface{}{lg.ids[r.Intn(len(lg.ids))]}
+			}
 		}
 		o["rule"] = rule
 		if lg.profile == "events" {
@@ -330,6 +344,10 @@ func genLocCase(r *rand.Rand, prof string) Case {
 		if prof == "capacity" {
 			l["max"] = 2 + r.Intn(4)
 		}
+		if prof == "cronhooks" {
+			l["hooks"] = true
+			l["persistent"] = r.Intn(2) == 0
+		}
 		if prof == "durable" {
 			l["storage"] = pick(r, "mem", "bolt").(string)
 			if r.Intn(3) != 0 {
@@ -397,6 +415,7 @@ func errRes(err error) map[string]interface{} {
 }
 
 type locWorld struct {
+	cronners map[string]*recCronner
 	ctx      *core.Context
 	fails    map[string]*failStorage
 	cleanup  []func()
@@ -427,6 +446,11 @@ func (w *locWorld) open(name string) error {
 	}
 	if err != nil {
 		return err
+	}
+	if rc := w.cronners[name]; rc != nil {
+		if err := cron.AddHooks(ctx, rc, state); err != nil {
+			return err
+		}
 	}
 	ctrl := core.DefaultControl()
 	if m, ok := w.maxes[name]; ok {
@@ -470,6 +494,7 @@ func bssJSON(bss []core.Bindings) []interface{} {
 func execLocCase(c Case) {
 	w := &locWorld{stores: map[string]core.Storage{}, kinds: map[string]string{}, maxes: map[string]int{},
 		fails:    map[string]*failStorage{},
+		cronners: map[string]*recCronner{},
 		provider: core.NewSimpleLocationProvider(map[string]*core.Location{})}
 	defer func() {
 		for _, f := range w.cleanup {
@@ -499,6 +524,9 @@ func execLocCase(c Case) {
 		if v, ok := l["fail"]; ok {
 			w.fails[name] = &failStorage{Storage: st, n: int(num(v))}
 		}
+		if boolean(l["hooks"]) {
+			w.cronners[name] = &recCronner{persistent: boolean(l["persistent"])}
+		}
 		w.kinds[name] = str(l["kind"])
 		if v, ok := l["max"]; ok {
 			w.maxes[name] = int(num(v))
@@ -519,7 +547,14 @@ func execLocCase(c Case) {
 		if d := num(o["sleep"]); d > 0 {
 			time.Sleep(time.Duration(d) * time.Second)
 		}
+		if rc := w.cronners[str(o["loc"])]; rc != nil {
+			rc.take()
+			o["persistent"] = rc.persistent
+		}
 		execLocOp(w, o)
+		if rc := w.cronners[str(o["loc"])]; rc != nil {
+			o["cron"] = rc.take()
+		}
 		done = append(done, o)
 		fired := false
 		if fs := w.fails[str(o["loc"])]; fs != nil && fs.takeFired() {
